@@ -12,7 +12,7 @@ LEVEL = "exploration"
 TIERS = {"quick": {"cases": 2000, "wall": 100, "min_nontrivial": 300},
          "thorough": {"cases": 60000, "wall": 1500, "min_nontrivial": 5000}}
 RULE = ("generator -> valid program P with its token sequence known by construction (vf/gen/model.py roles: source-only, "
-        "canonical-only for the documented canonicalisations); canonical layout plus 2 random free-form layouts "
+        "canonical-only for the documented canonicalisations); canonical layout plus 3 random free-form layouts (one with literals broken inside and continuation lines starting with &) "
         "(continuations, ';' joins, case flips of keywords); oracle: blank-free character stream of every regenerated "
         "statement equals the expected one, names/literals/labels exact, the rest case-insensitive; plus reader-item "
         "conservation (every consumed reader item is attached to exactly one tree node) and string_replace_map "
@@ -23,7 +23,9 @@ DECIDING_MONITORS = ("statements_compared", "items_conserved")
 
 LAYOUTS = [None,
            dict(comments=False, p_cont=0.25, p_semi=0.15, p_case=0.5, indent="random", p_blank=0.05),
-           dict(comments=False, p_cont=0.5, p_semi=0.05, p_case=0.2, indent="random", p_lead_amp=0.3, max_breaks=4)]
+           dict(comments=False, p_cont=0.5, p_semi=0.05, p_case=0.2, indent="random", p_lead_amp=0.3, max_breaks=4),
+           # continuation lines that start with '&' wherever possible, literals broken inside
+           dict(comments=False, p_cont=0.6, p_semi=0.0, p_case=0.0, indent="depth", p_lead_amp=0.9, max_breaks=5, p_str_split=0.1)]
 
 
 def make_payload(rng, idx, tier):
@@ -83,7 +85,7 @@ def check(payload):
     tally = {"stmt_kinds": P.kinds(), "deviations": []}
     digs = []
     seen = set()
-    layouts = payload.get("layouts", [0, 1, 2])
+    layouts = payload.get("layouts", [0, 1, 2, 3])
     for li in layouts:
         v, src, devs = one(P, std, li, lseed, mons)
         if devs == "rejected":
